@@ -184,16 +184,22 @@ func c31GenPCol(t *rapid.T, name string, n int, c *c31Case) *c31PCol {
 		prec := int32(c31Pick(t, "prec", 5, 9, 18, 30, 38))
 		scale := int32(rapid.IntRange(0, int(min(prec, 12))).Draw(t, "scale"))
 		col.Type = &arrow.Decimal128Type{Precision: prec, Scale: scale}
-		col.Decimal = true
 		col.D = make([]decimal128.Num, n)
 		digits := int(min(prec, 17))
 		for i := range col.D {
 			lim := int64(math.Pow10(digits)) - 1
 			u := c31DrawInt(t, -lim, lim)
 			col.D[i] = decimal128.FromI64(u)
+			// documented conversion: DECIMAL -> DOUBLE (arrow's Num.ToFloat64, "lossy
+			// for very high-precision decimals"); the harness only checks that it is
+			// the nearest-double-or-neighbour of the exact rational value.
+			f := col.D[i].ToFloat64(scale)
 			r := new(big.Rat).SetFrac(big.NewInt(u), new(big.Int).Exp(big.NewInt(10), big.NewInt(int64(scale)), nil))
-			f, _ := r.Float64()
-			col.Want[i] = fmt.Sprintf("d:%.12g", f)
+			exact, _ := r.Float64()
+			if math.Abs(f-exact) > 1e-12*math.Abs(exact) {
+				t.Fatalf("HARNESS decimal reference drift: %v vs exact %v", f, exact)
+			}
+			col.Want[i] = duck.Canon(f)
 		}
 	case "ts_s", "ts_ms", "ts_us", "ts_ns":
 		unit := map[string]arrow.TimeUnit{"ts_s": arrow.Second, "ts_ms": arrow.Millisecond, "ts_us": arrow.Microsecond, "ts_ns": arrow.Nanosecond}[typ]
